@@ -245,9 +245,17 @@ where
             recycle_tx.send(prev_buffer).ok();
 
             if self.buffer.block.data().len() > 0 {
-                break;
+                return Ok(());
             }
         }
+
+        // At EOF, no block was read, so the buffer must not be left holding the previous block.
+        self.buffer.block.set_position(self.position);
+        self.buffer.block.set_size(0);
+
+        let data = self.buffer.block.data_mut();
+        data.set_position(0);
+        data.resize(0);
 
         Ok(())
     }
